@@ -18,7 +18,9 @@ type g struct {
 }
 
 var alphabet = []string{"a", "b", "c", "x", "y", "K", "0", "1", "7", " ", " ", "\"", "\\", "(", ")", ",", "é", "世", "😀", "\t", "\n", "\r",
-	":", ".", "#", "-", "_", "*", "^", "$", "[", "+", " ", "\v"}
+	":", ".", "#", "-", "_", "*", "^", "$", "[", "+", " ", "\v",
+	// values that mean something to some layer: other Unicode spaces, BOM, NUL, form feed, JSON/format bytes
+	"\u0085", "\u2028", "\u3000", "\ufeff", "\x00", "\f", "{", "}", "'", "`", "|", "@", "%", "=", "<", ">", "\u200b", "\ufffd"}
 
 var keywords = []string{"and", "or", "not", "(", ")", "query", "where", "orderby", "limit", "offset", "exists", "==", "in", "sameas", "true", "[ERROR]", "[unknown]"}
 
@@ -29,6 +31,9 @@ func (g *g) pick(xs []string) string { return xs[g.rng.Intn(len(xs))] }
 // str: a string over the alphabet the property names (spaces, quotes, backslashes, parentheses, commas, multi-byte runes)
 func (g *g) str(maxLen int) string {
 	n := g.rng.Intn(maxLen + 1)
+	if g.rng.Intn(40) == 0 {
+		n = 1 << uint(g.rng.Intn(7)) // length class drawn uniformly: 1 … 64
+	}
 	var sb strings.Builder
 	for i := 0; i < n; i++ {
 		sb.WriteString(g.pick(alphabet))
@@ -246,6 +251,10 @@ func (g *g) tree(depth int, wf bool) *node {
 	if !wf && g.rng.Intn(3) == 0 {
 		w = g.rng.Intn(2)
 	}
+	if g.rng.Intn(30) == 0 {
+		w = 5 + g.rng.Intn(12)
+		depth = 1
+	}
 	for i := 0; i < w; i++ {
 		n.kids = append(n.kids, g.tree(depth-1, wf))
 	}
@@ -290,6 +299,13 @@ func (g *g) prefix() string {
 }
 
 func (g *g) limit(wf bool) int {
+	if g.rng.Intn(4) == 0 { // bit length drawn uniformly
+		bits := 31
+		if !wf {
+			bits = 63
+		}
+		return int(g.rng.Uint64() >> uint(64-1-g.rng.Intn(bits)))
+	}
 	switch g.rng.Intn(10) {
 	case 0, 1, 2, 3:
 		return 0
@@ -355,11 +371,15 @@ func (g *g) emitRT(emit func(hxlib.Case), kind string, in *rtIn, nrec int) {
 		if in.where != nil {
 			w = in.where.spec()
 		}
+		if in.precheck {
+			w = "C:" + w
+		}
 		emit(hxlib.Case{Lines: []string{fmt.Sprintf("rt %s %s %s %d %d ~ ~ ~", hx(in.prefix), w, hx(in.orderby), in.limit, in.offset)}, Kind: kind + "-gen-panic", NoModel: true, NonTrivial: true})
 		return
 	}
 	cl := rtClass(in)
 	g.r.Count("rt-class:" + cl)
+	g.r.Count(fmt.Sprintf("rt-object-used-before:%v", in.precheck))
 	if o.checkErr != nil {
 		g.r.Count("rt-outcome:" + errClass(o.checkErr))
 	} else {
